@@ -12,10 +12,12 @@ import (
 	"context"
 	"fmt"
 	"math/rand"
+	"os"
 	"strings"
 	"time"
 
 	corev1 "k8s.io/api/core/v1"
+	metav1 "k8s.io/apimachinery/pkg/apis/meta/v1"
 	"k8s.io/apimachinery/pkg/types"
 
 	v1 "sigs.k8s.io/karpenter/pkg/apis/v1"
@@ -108,9 +110,65 @@ func execute(r *mon.Report, rc runCfg) outcome {
 		cfg.PDeletePod, cfg.PDrift = 0.25, 0
 		cfg.OnePodPerNode, cfg.SmallPods = false, true
 	}
+	if rc.mode == "multi-repl" {
+		// drifted nodes whose pods will not fit one node any more: the command needs several replacements, which come up
+		// one after the other
+		kind = "drift-needing-several-replacements"
+		cfg.Scenario.Pod = gen.PodCfg{MaxCPUMilli: 1500}
+		cfg.Scenario.MinPools, cfg.Scenario.MaxPools = 1, 1
+		cfg.Scenario.Pool.PRequirement, cfg.Scenario.Pool.PCustomLabel = 0, 0
+		cfg.Scenario.Catalog.PUnavailable = 0
+		cfg.Rounds, cfg.PodsPerRound = 2, 6
+		cfg.PDeletePod, cfg.PDrift = 0, 1.0
+		cfg.OnePodPerNode, cfg.SmallPods = false, true
+		cfg.PodHook = func(p *corev1.Pod) {
+			if p.Labels == nil {
+				p.Labels = map[string]string{}
+			}
+			p.Spec.Affinity = &corev1.Affinity{PodAntiAffinity: &corev1.PodAntiAffinity{RequiredDuringSchedulingIgnoredDuringExecution: []corev1.PodAffinityTerm{{
+				TopologyKey: corev1.LabelHostname, LabelSelector: &metav1.LabelSelector{MatchLabels: map[string]string{"sep": "yes"}}}}}}
+		}
+	}
 	d := common.BuildDisruption(rng, cfg)
 	e := d.Env
 	e.Provider.Policy = "cheapest"
+	if rc.mode == "multi-repl" {
+		// the pods of the node with the largest workload get the label their own anti-affinity term selects (labels are
+		// mutable, the term is IgnoredDuringExecution): they may stay together, but wherever they are re-scheduled they must
+		// separate, so replacing their node takes several new nodes
+		best := ""
+		bestN := 0
+		nodes := &corev1.NodeList{}
+		_ = e.API.Raw.List(context.Background(), nodes)
+		for i := range nodes.Items {
+			n := 0
+			for _, p := range d.PodsOn(nodes.Items[i].Name) {
+				if p.Spec.Affinity != nil && p.Spec.Affinity.PodAntiAffinity != nil {
+					n++
+				}
+			}
+			if n > bestN {
+				best, bestN = nodes.Items[i].Name, n
+			}
+		}
+		if bestN >= 2 {
+			labelled := 0
+			for _, p := range d.PodsOn(best) {
+				if labelled >= 3 {
+					break // three pods that must separate are enough
+				}
+				if p.Spec.Affinity != nil && p.Spec.Affinity.PodAntiAffinity != nil {
+					labelled++
+					if p.Labels == nil {
+						p.Labels = map[string]string{}
+					}
+					p.Labels["sep"] = "yes"
+					e.Apply(p)
+				}
+			}
+			_ = e.SyncState()
+		}
+	}
 	caseDesc := map[string]any{"case": rc.idx, "scenario_seed": rc.seed, "kind": kind, "mode": rc.mode, "options": optDesc, "nodes": d.NodeInfo}
 	if rc.fault != nil {
 		caseDesc["fault"] = map[string]any{"at_call": rc.fault.AtCall, "kind": rc.fault.Kind}
@@ -199,7 +257,14 @@ func execute(r *mon.Report, rc runCfg) outcome {
 		e.API.StartCounting()
 	}
 	crashed := false
-	for round := 0; round < 3 && cmd == nil && !crashed; round++ {
+	want := func() bool { // keep starting rounds until the command this mode is about has appeared
+		return cmd == nil || (rc.mode == "multi-repl" && len(cmd.Replacements) < 2)
+	}
+	maxRounds := 3
+	if rc.mode == "multi-repl" {
+		maxRounds = 6
+	}
+	for round := 0; round < maxRounds && want() && !crashed; round++ {
 		cmds, err, c := startRound()
 		crashed = c
 		if err != nil {
@@ -207,6 +272,9 @@ func execute(r *mon.Report, rc runCfg) outcome {
 			r.Inc("start_errors_observed")
 		}
 		for _, c := range cmds {
+			if os.Getenv("C08_DEBUG") != "" {
+				fmt.Fprintf(os.Stderr, "DEBUG cmd %s\n", c.String())
+			}
 			for _, cand := range c.Candidates {
 				if inflight[cand.Name()] {
 					out.violations++
@@ -215,11 +283,14 @@ func execute(r *mon.Report, rc runCfg) outcome {
 				inflight[cand.Name()] = true
 				everInflight[cand.NodeClaim.Name] = true
 			}
-			if cmd == nil || (rc.mode == "cand-vanish" && len(cmd.Candidates) < 2 && len(c.Candidates) >= 2) {
+			if cmd == nil || (rc.mode == "cand-vanish" && len(cmd.Candidates) < 2 && len(c.Candidates) >= 2) || (rc.mode == "multi-repl" && len(cmd.Replacements) < 2 && len(c.Replacements) >= 2) {
 				cmd = c
 			}
 		}
 		_ = e.SyncState()
+	}
+	if cmd != nil && len(cmd.Replacements) >= 2 {
+		r.Inc("commands_with_several_replacements")
 	}
 	if cmd != nil && len(cmd.Candidates) >= 2 && len(cmd.Replacements) >= 1 {
 		r.Inc("commands_with_several_candidates_and_a_replacement")
@@ -556,7 +627,7 @@ func run(r *mon.Report, tier string, idx int, rng *rand.Rand) {
 	_, kinds, stride := sizes(tier)
 	seed := rng.Int63()
 	script := rng.Int63()
-	mode := []string{"normal", "late", "vanish", "stall", "cand-vanish", "late", "vanish", "stall"}[idx%8]
+	mode := []string{"normal", "late", "vanish", "stall", "cand-vanish", "multi-repl", "vanish", "stall"}[idx%8]
 	base := execute(r, runCfg{mode: mode, seed: seed, idx: idx, script: script})
 	r.Eval()
 	if !base.startedCmd {
@@ -595,7 +666,7 @@ var _ = corev1.Pod{}
 func init() {
 	reg.Register(&reg.Prop{
 		ID: "C08", Level: "fault_enumeration",
-		Rule:  "each case = one scenario (cluster grown through the real pipeline; drift with pods / underutilised / mixed so that replace and delete commands arise) + orchestration script (queue reconciles interleaved in PRNG order with the replacements being launched, registered and initialised by the real lifecycle controller and the kubelet actor; modes: normal, a replacement vanishes, a non-last candidate vanishes and then a replacement, replacements stall past the retry deadline, replacements initialise only after the deadline). The scenario runs once fault-free to count K API + provider calls from the round that starts the command to the end of the script, then once per k (stride 2 in quick) and error kind {500, 409, (404), crash+restart}. Monitors: candidate NodeClaim deletes by the orchestration queue judged synchronously against the replacements' Initialized condition; failed or crashed actions must not have deleted candidates and must have taint / DisruptionReason / deletion mark removed within 5 fault-free reconciles; no node in two commands. evaluations = executions; non-trivial = scenarios in which a command was started; distinct by (mode, reason, #replacements, #candidates, success).",
+		Rule:  "each case = one scenario (cluster grown through the real pipeline; drift with pods / underutilised / mixed so that replace and delete commands arise) + orchestration script (queue reconciles interleaved in PRNG order with the replacements being launched, registered and initialised by the real lifecycle controller and the kubelet actor; modes: normal, a replacement vanishes, a non-last candidate vanishes and then a replacement, a drift command needing several replacements that initialise one after the other, replacements stall past the retry deadline, replacements initialise only after the deadline). The scenario runs once fault-free to count K API + provider calls from the round that starts the command to the end of the script, then once per k (stride 2 in quick) and error kind {500, 409, (404), crash+restart}. Monitors: candidate NodeClaim deletes by the orchestration queue judged synchronously against the replacements' Initialized condition; failed or crashed actions must not have deleted candidates and must have taint / DisruptionReason / deletion mark removed within 5 fault-free reconciles; no node in two commands. evaluations = executions; non-trivial = scenarios in which a command was started; distinct by (mode, reason, #replacements, #candidates, success).",
 		Cases: cases, Run: run,
 		MinObserved: map[string]int{"scenarios_with_command": 8, "candidate_deletes_observed": 50, "rollback_checks": 30},
 	})
